@@ -131,6 +131,8 @@ def run(model, rep, tier):
     rep.explanation = __doc__.strip()
     from ._common import caches_for
     caches_for(model, rep, 'C04')
+    from ._common import inverse_map_placed
+    inverse_map_placed(model, rep, [('OnsagerCalc', 'Interstitial', '__init__', 'invmap'), ('OnsagerCalc', 'VacancyMediated', '__init__', 'invmap')])
     rep.not_decided = 'kT co-scaling, displacement invariance and exact proportionality to the rates (numerical)'
     rep.rule('boltzmann-balanced', 'the argument of every np.exp has zero net weight in every reference class')
     rep.rule('class-of-argument', 'arrays passed on have the reference class the callee documents; partial in-place additions are class-zero')
